@@ -386,6 +386,13 @@ func TestPropEndpointSelection(t *testing.T) {
 					t.Skip("no disabled endpoint")
 				}
 				i := rapid.SampledFrom(dis).Draw(t, "endpoint")
+				// the trigger (the dispatcher's error responder fires it on "connection refused") comes after the grace
+				// period the quiet check below grants to probes that were already on their way when the endpoint was disabled
+				if at, ok := w.disabledAt[i]; ok {
+					if d := time.Until(at.Add(310 * time.Millisecond)); d > 0 {
+						time.Sleep(d)
+					}
+				}
 				ci, _ := g.Box.Controller.Get("gamma")
 				if info, ok := ci.Endpoints.Load(pool.Upstreams[i].URL); ok {
 					info.TriggerHealthCheck()
